@@ -22,7 +22,13 @@ def one(name):
     checks = meta.get("detected_by") or [meta["property"]]
     wt = tempfile.mkdtemp(prefix="selftest_")
     os.rmdir(wt)
-    subprocess.run(["git", "-C", "/repo", "worktree", "add", "-q", "--detach", wt, "HEAD"], check=True)
+    import time
+    for attempt in range(8):            # concurrent `git worktree add` calls contend for a lock
+        if subprocess.run(["git", "-C", "/repo", "worktree", "add", "-q", "--detach", wt, "HEAD"], capture_output=True).returncode == 0:
+            break
+        time.sleep(1.5 + attempt)
+    else:
+        return name, "cannot-create-worktree", []
     evd = tempfile.mkdtemp(prefix="selftest_ev_")
     try:
         ap = subprocess.run(["git", "-C", wt, "apply", os.path.join(d, "patch.diff")], capture_output=True, text=True)
